@@ -37,6 +37,13 @@ Proof.
   eapply frame_trans; [apply recv_frame | apply IH].
 Qed.
 
+Lemma firstn_len_app {A} (a b : list A) : firstn (length a) (a ++ b) = a.
+Proof. induction a; cbn; congruence. Qed.
+Lemma skipn_len_app {A} (a b : list A) : skipn (length a) (a ++ b) = b.
+Proof. induction a; cbn; congruence. Qed.
+Lemma ltb_len_app {A} (a b : list A) : Nat.ltb (length (a ++ b)) (length a) = false.
+Proof. apply Nat.ltb_ge. rewrite app_length. lia. Qed.
+
 (* ------------------------------------------------------- simulation -- *)
 Section Sim.
   Variable pr : proto.
@@ -170,6 +177,13 @@ Section Sim.
            |split; [discriminate
                    |split; [first [assumption | reflexivity | congruence] | tac]]].
 
+  Ltac rel_split :=
+    unfold Rel;
+    split; [unfold RC, RCs; cbn; repeat split; auto
+           |split; [|split; [|split; [|split; [|split; [|split; [|split; [|split; [|split]]]]]]]]];
+    cbn; try assumption; auto; try (intro; discriminate);
+    try (unfold SI; cbn; split; intros; try discriminate; repeat split; auto; fail).
+
   Lemma streams_sim m s e k c s' e' k' r :
     Rel m s e -> poll_streams pr s e k c = (s', e', k', r) ->
     k' = k /\ exists m', normal pr m r = Some m' /\ Post m' s' e' r.
@@ -181,14 +195,14 @@ Section Sim.
                    k1 = k /\ exists m', normal pr m r1 = Some m' /\ Post m' s1 e1 r1).
     { intros s1 e1 k1 r1 E. inversion E; subst. split; [reflexivity|]. exists m. cbn.
       split; [reflexivity|]. post ltac:(intros _; assumption). }
-    destruct (pick pr (chans e) (streams s) c) as [id|]; [|apply Pend; exact Hp].
+    destruct (pick (chans e) (streams s) c) as [id|]; [|apply Pend; exact Hp].
     destruct (assoc id (streams s)) as [i|] eqn:Ei; [|apply Pend; exact Hp].
     destruct (assoc i (chans e)) as [[[|n b] en]|] eqn:Ec; [destruct en| |]; try (apply Pend; exact Hp).
     - (* the source stream ended: complete *)
       inversion Hp; subst; clear Hp. split; [reflexivity|].
       unfold normal. rewrite Hst. cbn [mem]. rewrite Hl, Ei, Hch, Ec.
       eexists; split; [reflexivity|]. post idtac.
-      intros _. unfold Rel, RC, RCs; cbn. rewrite Hl. repeat split; auto.
+      intros _. rel_split.
     - (* an item *)
       inversion Hp; subst; clear Hp. split; [reflexivity|].
       assert (E : normal pr m (RMsg (data_msg pr id i n)) =
@@ -197,7 +211,7 @@ Section Sim.
                               (m_stopped m) None false (m_quirk m))).
       { unfold normal, data_msg. destruct pr; rewrite Hl, Ei, Hch, Ec, !N.eqb_refl; reflexivity. }
       eexists; split; [exact E|]. post idtac.
-      intros _. unfold Rel, RC, RCs; cbn. rewrite Hch. repeat split; auto.
+      intros _. rel_split. congruence.
   Qed.
 
   Lemma futs_sim m s e k c s' e' k' r :
@@ -223,22 +237,731 @@ Section Sim.
       + inversion Hp; subst; clear Hp. split; [reflexivity|].
         unfold normal. rewrite Hin, Eo, Eid, Ha, Eack, Hans. cbn.
         eexists; split; [reflexivity|]. post idtac.
-        intros _. unfold Rel, RC, RCs, SI, idone; cbn. rewrite Eo. repeat split; auto; try discriminate.
+        intros _. rel_split.
       + inversion Hp; subst; clear Hp. split; [reflexivity|].
         unfold normal, fail_msg, init_rejected. destruct pr; rewrite Hin, Eo, Eid, Hans; cbn.
-        * rewrite Bool.orb_true_r. eexists; split; [reflexivity|]. post discriminate.
-        * rewrite Bool.orb_true_r. eexists; split; [reflexivity|]. post discriminate.
+        * rewrite ?Bool.orb_true_r; cbn. eexists; split; [reflexivity|]. post discriminate.
+        * rewrite ?Bool.orb_true_r; cbn. eexists; split; [reflexivity|]. post discriminate.
     - destruct (ping_fut s) eqn:Epf; [|eapply streams_sim; eauto].
       destruct (ping_q e) as [|[|] qq] eqn:Eq; [apply Pend; exact Hp| |].
       + inversion Hp; subst; clear Hp. split; [reflexivity|].
         exists m. cbn. split; [reflexivity|]. post idtac.
-        intros _. unfold Rel, RC, RCs, SI, idone; cbn. rewrite Ef. repeat split; auto.
+        intros _. rel_split.
+        * unfold SI; cbn. split; [discriminate|]. intro Hk. destruct (HS2 Hk). auto.
         * rewrite Hid; unfold idone; rewrite Ef; reflexivity.
-        * intro H. apply Hpg. cbn. exact H.
       + inversion Hp; subst; clear Hp. split; [reflexivity|].
         assert (Hpf : m_pingfail m = true) by (apply Hpg; reflexivity).
         unfold normal, fail_msg. destruct pr; rewrite Hpf; cbn.
-        * rewrite !Bool.orb_true_r. eexists; split; [reflexivity|]. post discriminate.
-        * rewrite !Bool.orb_true_r. eexists; split; [reflexivity|]. post discriminate.
+        * rewrite ?Bool.orb_true_r; cbn. eexists; split; [reflexivity|]. post discriminate.
+        * rewrite ?Bool.orb_true_r; cbn. eexists; split; [reflexivity|]. post discriminate.
+  Qed.
+  Lemma mon_poll_zero m r :
+    m_closed m = false -> m_overrun m = false -> m_due m = None ->
+    mon_poll pr Q m 0 r = normal pr m r.
+  Proof.
+    intros H H0 H1. unfold mon_poll. rewrite H. cbn [length Nat.ltb Nat.leb firstn skipn fold_left].
+    rewrite set_inbox_same, H0, H1. reflexivity.
+  Qed.
+
+  Definition Done (m' : mon) (s' : srv) (e' : env) (r : pres) : Prop :=
+    m_fin m' = match r with REnd => true | _ => false end /\
+    (r <> REnd -> m_closed m' = closed s' /\ (closed s' = false -> Rel m' s' e')).
+
+  Lemma post_done m' s' e' r : Post m' s' e' r -> Done m' s' e' r.
+  Proof.
+    intros (H1 & H2 & H3 & H4). split.
+    - destruct r; congruence.
+    - intros _. split; assumption.
+  Qed.
+
+  Lemma poll_sim m s e c s' e' k r :
+    Rel m s e -> poll pr ka s e c = (s', e', k, r) ->
+    exists m', mon_poll pr Q m k r = Some m' /\ Done m' s' e' r.
+  Proof.
+    intros HR Hp. pose proof HR as HR0. unfold poll in Hp.
+    destruct HR as (HRC & HSI & Hib & Hch & Hnx & Hid & Hans & Hpg & Htm & Hcl & Hfin).
+    pose proof HRC as (Ha & Hl & Hst & Hdue & Hov & Hin & Hcs).
+    rewrite Hcs in Hp.
+    destruct (ka && timer_fired e) eqn:Et.
+    - (* keep-alive expired *)
+      apply Bool.andb_true_iff in Et. destruct Et as [_ Et]. specialize (Htm Et).
+      inversion Hp; subst; clear Hp. rewrite mon_poll_zero by assumption.
+      unfold normal. destruct pr; rewrite Htm; cbn; eexists; (split; [reflexivity|]);
+        unfold Done; cbn; (split; [reflexivity|]); intros _; (split; [reflexivity|discriminate]).
+    - destruct (negb (init_fut s) && negb (ping_fut s)) eqn:En.
+      + destruct (drain pr s (timer_fired e) (inbox e) 0) as [[[[s1 tf] inb] k1] early] eqn:Ed.
+        assert (Hif : init_fut s = false).
+        { apply Bool.andb_true_iff in En. destruct En as [En _]. destruct (init_fut s); [discriminate|reflexivity]. }
+        assert (HRC' : RC (set_inbox m inb) s) by exact HRC.
+        destruct (drain_sim _ _ _ _ _ _ _ _ _ _ HRC' HSI Hif Ed) as (cs & E1 & E2 & E3 & E4 & E5).
+        cbn in E2. subst k1.
+        pose proof (fold_recv_frame pr Q cs (set_inbox m inb)) as Hfr.
+        remember (fold_left (recv pr Q) cs (set_inbox m inb)) as m1 eqn:Em1.
+        destruct Hfr as (F1 & F2 & F3 & F4 & F5 & F6 & F7 & F8 & F9 & F10). cbn in F1, F2, F3, F4, F5, F6, F7, F8, F9, F10.
+        assert (Emp : forall r0, mon_poll pr Q m (length cs) r0 =
+                  if m_overrun m1 then None
+                  else match m_due m1 with
+                       | Some c0 =>
+                           match close_class pr Q c0 r0 with
+                           | Some d =>
+                               Some (mkMon (m_inbox m1) (m_chans m1) (m_next m1) (m_init_ans m1) (m_pingfail m1) (m_timer m1)
+                                           match r0 with REnd => true | _ => false end
+                                           true (m_inits m1) (m_initdone m1) (m_acked m1) (m_live m1) (m_stopped m1) None false
+                                           (if d =? 0 then m_quirk m1 else note (m_quirk m1) d))
+                           | None => None
+                           end
+                       | None => normal pr m1 r0
+                       end).
+        { intro r0. unfold mon_poll. rewrite Hcl, Hib, E1, ltb_len_app, firstn_len_app, skipn_len_app, <- Em1. reflexivity. }
+        assert (HRel1 : RC m1 s1 -> SI s1 -> idone s1 = idone s ->
+                        Rel m1 s1 (mkEnv inb (init_q e) (ping_q e) (chans e) tf (next_inst e))).
+        { intros R1 R2 R3. unfold Rel. cbn.
+          split; [exact R1|]. split; [exact R2|]. split; [exact F1|]. split; [congruence|]. split; [congruence|].
+          split; [congruence|]. split; [intro H; rewrite F4; apply Hans; congruence|].
+          split; [intro H; rewrite F5; auto|]. split; [intro H; rewrite F6; auto|]. split; congruence. }
+        destruct early as [r0|].
+        * inversion Hp; subst s' e' k r; clear Hp. rewrite Emp.
+          destruct r0 as [| |o].
+          -- contradiction.
+          -- destruct E5 as [(D1 & D2 & D3)|(D1 & D2 & D3 & t & D4)].
+             ++ rewrite D2, D1. replace (close_class pr Q KTerm REnd) with (Some 0) by (destruct pr; reflexivity).
+                eexists; split; [reflexivity|]. split; [reflexivity|]. intro H; contradiction.
+             ++ pose proof D1 as (_ & _ & _ & G1 & G2 & _). rewrite G2, G1.
+                unfold normal. rewrite F1, D4. eexists; split; [reflexivity|].
+                split; [reflexivity|]. intro H; contradiction.
+          -- destruct o; try (destruct E5 as (c0 & d & D1 & D2 & D3 & D4); rewrite D2, D1, D3;
+                               eexists; (split; [reflexivity|]); (split; [reflexivity|]);
+                               intros _; cbn; (split; [congruence|]); rewrite D4; discriminate).
+             (* complete after a client stop *)
+             destruct E5 as (D1 & D2 & D3). pose proof D1 as (G0 & G3 & G4 & G1 & G2 & G5 & G6).
+             rewrite G2, G1. unfold normal. rewrite G4. cbn [mem]. rewrite name_eqb_refl.
+             eexists; split; [reflexivity|]. split; [reflexivity|]. intros _. cbn [m_closed].
+             split; [congruence|]. intros _. cbn [remove_first]. rewrite name_eqb_refl.
+             unfold Rel. cbn.
+             split; [unfold RC, RCs; cbn; repeat split; auto|]. split; [exact D2|]. split; [exact F1|].
+             split; [congruence|]. split; [congruence|].
+             split; [congruence|]. split; [intro H; rewrite F4; apply Hans; congruence|].
+             split; [intro H; rewrite F5; auto|]. split; [intro H; rewrite F6; auto|]. split; congruence.
+        * destruct E5 as (D1 & D2 & D3).
+          destruct (futs_sim _ _ _ _ _ _ _ _ _ (HRel1 D1 D2 D3) Hp) as (Ek & m' & N1 & N2).
+          subst k. rewrite Emp. pose proof D1 as (_ & _ & _ & G1 & G2 & _). rewrite G2, G1.
+          exists m'. split; [exact N1|]. apply post_done; exact N2.
+      + destruct (futs_sim _ _ _ _ _ _ _ _ _ HR0 Hp) as (Ek & m' & N1 & N2).
+        subst k. rewrite mon_poll_zero by assumption.
+        exists m'. split; [exact N1|]. apply post_done; exact N2.
+  Qed.
+  Lemma mon_env_flags m ev :
+    m_fin (mon_env ka m ev) = m_fin m /\ m_closed (mon_env ka m ev) = m_closed m.
+  Proof.
+    destruct ev; cbn; try (split; reflexivity).
+    destruct (push_client (m_inbox m) (m_chans m) (m_next m) m0) as [[a b] c]. cbn. split; reflexivity.
+  Qed.
+
+  Lemma env_sim m s e ev : Rel m s e -> Rel (mon_env ka m ev) s (env_step ka e ev).
+  Proof.
+    intros HR.
+    destruct HR as (HRC & HSI & Hib & Hch & Hnx & Hid & Hans & Hpg & Htm & Hcl & Hfin).
+    destruct ev; cbn.
+    - rewrite Hib, Hch, Hnx.
+      destruct (push_client (inbox e) (chans e) (next_inst e) m0) as [[a b] c].
+      unfold Rel; cbn. repeat (split; [assumption || reflexivity|]). assumption.
+    - unfold Rel; cbn. split; [exact HRC|]. split; [exact HSI|]. repeat (split; [assumption|]).
+      split; [|repeat (split; [assumption|]); assumption].
+      intro H. specialize (Hans H). rewrite Hans. destruct (init_q e); reflexivity.
+    - unfold Rel; cbn. split; [exact HRC|]. split; [exact HSI|]. repeat (split; [assumption|]).
+      split; [|repeat (split; [assumption|]); assumption].
+      rewrite existsb_app. cbn. rewrite Bool.orb_false_r. intro H.
+      apply Bool.orb_true_iff in H. destruct H as [H|H]; [rewrite (Hpg H); reflexivity|].
+      rewrite H. apply Bool.orb_true_r.
+    - unfold Rel; cbn. rewrite Hch. split; [exact HRC|]. split; [exact HSI|].
+      repeat (split; [assumption || reflexivity|]). assumption.
+    - unfold Rel; cbn. rewrite Hch. split; [exact HRC|]. split; [exact HSI|].
+      repeat (split; [assumption || reflexivity|]). assumption.
+    - unfold Rel; cbn. split; [exact HRC|]. split; [exact HSI|]. repeat (split; [assumption|]).
+      split; [|split; assumption].
+      intro H. apply Bool.orb_true_iff in H. destruct H as [H|H]; [rewrite H; apply Bool.orb_true_r|].
+      rewrite (Htm H). reflexivity.
+  Qed.
+
+  Definition Inv (m : mon) (y : sys) : Prop :=
+    m_fin m = fin y /\
+    (fin y = false -> m_closed m = closed (sv y) /\ (closed (sv y) = false -> Rel m (sv y) (en y))).
+
+  Lemma step_sim m y a :
+    Inv m y -> exists m', mon_step pr ka Q m a (snd (act pr ka y a)) = Some m' /\ Inv m' (fst (act pr ka y a)).
+  Proof.
+    intros (Hf & Hc). destruct a as [ev|c]; cbn [act].
+    - cbn. eexists; split; [reflexivity|]. destruct (mon_env_flags m ev) as [F1 F2].
+      split; cbn; [congruence|]. intro H. destruct (Hc H) as [C1 C2]. split; [congruence|].
+      intro H2. apply env_sim. auto.
+    - destruct (fin y) eqn:Ef.
+      + cbn. rewrite Hf. eexists; split; [reflexivity|]. split; [congruence|]. intro H; congruence.
+      + destruct (Hc eq_refl) as [C1 C2].
+        destruct (poll pr ka (sv y) (en y) c) as [[[s e] k] r] eqn:Ep. cbn [fst snd mon_step]. rewrite Hf.
+        destruct (closed (sv y)) eqn:Ec.
+        * unfold poll in Ep. rewrite Ec in Ep. inversion Ep; subst. unfold mon_poll. rewrite C1.
+          eexists; split; [reflexivity|]. split; [reflexivity|]. cbn. discriminate.
+        * destruct (poll_sim _ _ _ _ _ _ _ _ (C2 eq_refl) Ep) as (m' & P1 & P2 & P3).
+          exists m'. split; [exact P1|]. split; [exact P2|]. cbn.
+          intro H. apply P3. intro E; subst r; discriminate.
+  Qed.
+
+  Lemma conforms_gen : forall acts m y,
+    Inv m y -> exists m', mon_run pr ka Q m acts (run pr ka y acts) = Some m'.
+  Proof.
+    induction acts as [|a acts IH]; intros m y HI; cbn [run mon_run]; [eauto|].
+    destruct (step_sim m y a HI) as (m1 & S1 & S2).
+    destruct (act pr ka y a) as [y' o]. cbn [fst snd] in S1, S2. cbn [mon_run]. rewrite S1.
+    apply IH. exact S2.
+  Qed.
+
+  Lemma inv0 : Inv mon0 sys0.
+  Proof.
+    unfold Inv, mon0, sys0; cbn. split; [reflexivity|]. intros _. split; [reflexivity|]. intros _.
+    unfold Rel, RC, RCs, SI, idone; cbn. repeat split; auto; discriminate.
+  Qed.
+
+  Theorem conforms : forall acts, accepts pr ka Q acts (run pr ka sys0 acts) = true.
+  Proof.
+    intro acts. unfold accepts. destruct (conforms_gen acts mon0 sys0 inv0) as (m' & H). rewrite H. reflexivity.
   Qed.
 End Sim.
+
+(* ------------------------------------- strict monitor outside the classes -- *)
+Lemma note_nz old k : old <> 0 -> note old k = old.
+Proof. intro H. unfold note. destruct (old =? 0) eqn:E; [apply N.eqb_eq in E; contradiction|reflexivity]. Qed.
+
+Lemma note_pos old k : k <> 0 -> note old k <> 0.
+Proof. intro H. unfold note. destruct (old =? 0) eqn:E; [exact H|]. apply N.eqb_neq in E. exact E. Qed.
+
+Lemma recv_quirk_mono pr q m c : m_quirk m <> 0 -> m_quirk (recv pr q m c) <> 0.
+Proof.
+  intro H. unfold recv. split_match; cbn; try assumption. apply note_pos. discriminate.
+Qed.
+
+Lemma fold_quirk_mono pr q cs : forall m, m_quirk m <> 0 -> m_quirk (fold_left (recv pr q) cs m) <> 0.
+Proof.
+  induction cs as [|c cs IH]; intros m H; cbn [fold_left]; [exact H|].
+  apply IH. apply recv_quirk_mono. exact H.
+Qed.
+
+Lemma recv_strict pr m c :
+  m_quirk (recv pr Q m c) = 0 -> recv pr quirks_none m c = recv pr Q m c.
+Proof.
+  unfold recv. destruct (m_due m); [reflexivity|]. destruct c; try reflexivity.
+  destruct (negb (m_acked m)); [reflexivity|]. destruct (assoc id (m_live m)); [|reflexivity].
+  destruct pr; [reflexivity|]. cbn. intro H. exfalso. revert H. apply note_pos. discriminate.
+Qed.
+
+Lemma fold_strict pr cs : forall m,
+  m_quirk (fold_left (recv pr Q) cs m) = 0 ->
+  fold_left (recv pr quirks_none) cs m = fold_left (recv pr Q) cs m.
+Proof.
+  induction cs as [|c cs IH]; intros m H; cbn [fold_left] in *; [reflexivity|].
+  assert (H1 : m_quirk (recv pr Q m c) = 0).
+  { destruct (N.eq_dec (m_quirk (recv pr Q m c)) 0) as [E|E]; [exact E|].
+    exfalso. exact (fold_quirk_mono pr Q cs _ E H). }
+  rewrite (recv_strict pr m c H1). apply IH. exact H.
+Qed.
+
+Lemma normal_quirk pr m r m' : normal pr m r = Some m' -> m_quirk m' = m_quirk m.
+Proof.
+  unfold normal. intro H. destruct r as [| |o]; [| |destruct o]; revert H; split_match; intro H;
+    inversion H; subst; reflexivity.
+Qed.
+
+Lemma close_class_strict pr c r d :
+  close_class pr Q c r = Some d -> d = 0 -> close_class pr quirks_none c r = Some 0.
+Proof.
+  intros H ->. revert H. unfold close_class. destruct pr, c, r as [| |o]; try destruct o; cbn; try congruence;
+    split_match; cbn in *; congruence.
+Qed.
+
+Lemma mon_poll_strict pr m k r m' :
+  mon_poll pr Q m k r = Some m' -> m_quirk m' = 0 -> mon_poll pr quirks_none m k r = Some m'.
+Proof.
+  unfold mon_poll. destruct (m_closed m); [auto|].
+  destruct (Nat.ltb (length (m_inbox m)) k); [auto|].
+  set (mi := set_inbox m (skipn k (m_inbox m))). set (cs := firstn k (m_inbox m)).
+  intros H Hq.
+  assert (H1 : m_quirk (fold_left (recv pr Q) cs mi) = 0).
+  { destruct (m_overrun (fold_left (recv pr Q) cs mi)); [discriminate|].
+    destruct (m_due (fold_left (recv pr Q) cs mi)) as [c0|].
+    - destruct (close_class pr Q c0 r) as [d|]; [|discriminate]. inversion H; subst; clear H. cbn in Hq.
+      destruct (d =? 0) eqn:Ed; [exact Hq|]. exfalso. revert Hq. apply note_pos. apply N.eqb_neq. exact Ed.
+    - rewrite <- (normal_quirk _ _ _ _ H). exact Hq. }
+  rewrite (fold_strict pr cs mi H1).
+  destruct (m_overrun (fold_left (recv pr Q) cs mi)); [discriminate|].
+  destruct (m_due (fold_left (recv pr Q) cs mi)) as [c0|]; [|exact H].
+  destruct (close_class pr Q c0 r) as [d|] eqn:Ec; [|discriminate].
+  assert (Ed : d = 0).
+  { inversion H; subst; clear H. cbn in Hq. destruct (d =? 0) eqn:Ed; [apply N.eqb_eq; exact Ed|].
+    exfalso. revert Hq. apply note_pos. apply N.eqb_neq. exact Ed. }
+  rewrite (close_class_strict _ _ _ _ Ec Ed). subst d. exact H.
+Qed.
+
+Lemma mon_env_quirk ka m ev : m_quirk (mon_env ka m ev) = m_quirk m.
+Proof.
+  destruct ev; cbn; try reflexivity.
+  destruct (push_client (m_inbox m) (m_chans m) (m_next m) m0) as [[a b] c]. reflexivity.
+Qed.
+
+Lemma mon_poll_quirk_mono pr q m k r m' :
+  mon_poll pr q m k r = Some m' -> m_quirk m <> 0 -> m_quirk m' <> 0.
+Proof.
+  unfold mon_poll. destruct (m_closed m).
+  - destruct k; [|discriminate]. destruct r; try discriminate. intro H; inversion H; subst. cbn. auto.
+  - destruct (Nat.ltb (length (m_inbox m)) k); [discriminate|].
+    set (mi := set_inbox m (skipn k (m_inbox m))). set (cs := firstn k (m_inbox m)).
+    intros H Hq.
+    assert (H1 : m_quirk (fold_left (recv pr q) cs mi) <> 0) by (apply fold_quirk_mono; exact Hq).
+    destruct (m_overrun (fold_left (recv pr q) cs mi)); [discriminate|].
+    destruct (m_due (fold_left (recv pr q) cs mi)) as [c0|].
+    + destruct (close_class pr q c0 r) as [d|]; [|discriminate]. inversion H; subst; clear H. cbn.
+      destruct (d =? 0); [exact H1|]. rewrite note_nz by exact H1. exact H1.
+    + rewrite (normal_quirk _ _ _ _ H). exact H1.
+Qed.
+
+Lemma mon_step_quirk_mono pr ka q m a o m' :
+  mon_step pr ka q m a o = Some m' -> m_quirk m <> 0 -> m_quirk m' <> 0.
+Proof.
+  unfold mon_step. destruct a, o; try discriminate.
+  - intro H; inversion H; subst. rewrite mon_env_quirk. auto.
+  - destruct (m_fin m); [discriminate|]. apply mon_poll_quirk_mono.
+  - destruct (m_fin m); [|discriminate]. intro H; inversion H; subst; auto.
+Qed.
+
+Lemma mon_run_quirk_mono pr ka q : forall acts os m m',
+  mon_run pr ka q m acts os = Some m' -> m_quirk m <> 0 -> m_quirk m' <> 0.
+Proof.
+  induction acts as [|a acts IH]; intros os m m' H Hq; destruct os as [|o os]; cbn in H; try discriminate.
+  - inversion H; subst; exact Hq.
+  - destruct (mon_step pr ka q m a o) as [m1|] eqn:E; [|discriminate].
+    eapply IH; [exact H|]. eapply mon_step_quirk_mono; eauto.
+Qed.
+
+Lemma mon_run_strict pr ka : forall acts os m m',
+  mon_run pr ka Q m acts os = Some m' -> m_quirk m' = 0 ->
+  mon_run pr ka quirks_none m acts os = Some m'.
+Proof.
+  induction acts as [|a acts IH]; intros os m m' H Hq; destruct os as [|o os]; cbn in H |- *; try discriminate.
+  - exact H.
+  - destruct (mon_step pr ka Q m a o) as [m1|] eqn:E; [|discriminate].
+    assert (H1 : m_quirk m1 = 0).
+    { destruct (N.eq_dec (m_quirk m1) 0) as [E0|E0]; [exact E0|].
+      exfalso. exact (mon_run_quirk_mono _ _ _ _ _ _ _ H E0 Hq). }
+    assert (E' : mon_step pr ka quirks_none m a o = Some m1).
+    { revert E. unfold mon_step. destruct a, o; auto.
+      destruct (m_fin m); [auto|]. intro E. apply mon_poll_strict; assumption. }
+    rewrite E'. apply IH; assumption.
+Qed.
+
+(* outside the known classes the session satisfies the protocols as written *)
+Theorem strict_outside_known pr ka acts :
+  known_class pr ka acts (run pr ka sys0 acts) = 0 ->
+  accepts pr ka quirks_none acts (run pr ka sys0 acts) = true.
+Proof.
+  unfold known_class, accepts. intro H.
+  destruct (conforms_gen pr ka acts mon0 sys0 inv0) as (m' & E).
+  rewrite E in H. rewrite (mon_run_strict _ _ _ _ _ _ E H). reflexivity.
+Qed.
+
+(* --------------------------- what every accepted conversation satisfies -- *)
+Lemma mon_run_app pr ka q : forall os1 acts os2 m m',
+  mon_run pr ka q m acts (os1 ++ os2) = Some m' ->
+  exists acts1 acts2 m1, acts = acts1 ++ acts2 /\
+    mon_run pr ka q m acts1 os1 = Some m1 /\ mon_run pr ka q m1 acts2 os2 = Some m'.
+Proof.
+  induction os1 as [|o os1 IH]; intros acts os2 m m' H.
+  - exists [], acts, m. repeat split; auto.
+  - destruct acts as [|a acts]; cbn in H; [discriminate|].
+    destruct (mon_step pr ka q m a o) as [m1|] eqn:E; [|discriminate].
+    destruct (IH _ _ _ _ H) as (a1 & a2 & m2 & E1 & E2 & E3).
+    exists (a :: a1), a2, m2. subst acts. cbn. rewrite E. auto.
+Qed.
+
+Definition terminal (r : pres) : bool :=
+  match r with REnd => true | RMsg (OClose _) => true | RMsg (OConnErr _) => true | _ => false end.
+Definition quiet (o : obs) : bool :=
+  match o with ObsEnv => true | ObsSkip => true | ObsPoll O REnd => true | _ => false end.
+Definition is_ack (o : obs) : bool :=
+  match o with ObsPoll _ (RMsg OAck) => true | _ => false end.
+Definition is_op (o : obs) : bool :=
+  match o with
+  | ObsPoll _ (RMsg (OData _ _ _)) | ObsPoll _ (RMsg (ONext _ _ _)) | ObsPoll _ (RMsg (OComplete _)) => true
+  | _ => false
+  end.
+
+Lemma normal_terminal pr m r m' :
+  normal pr m r = Some m' -> terminal r = true -> m_closed m' = true \/ m_fin m' = true.
+Proof.
+  unfold normal. intros H T. destruct r as [| |o]; [discriminate| |destruct o; try discriminate];
+    revert H; split_match; intro H; inversion H; subst; cbn; auto.
+Qed.
+
+Lemma poll_terminal pr q m k r m' :
+  mon_poll pr q m k r = Some m' -> terminal r = true -> m_closed m' = true \/ m_fin m' = true.
+Proof.
+  unfold mon_poll. destruct (m_closed m).
+  - destruct k; [|discriminate]. destruct r; try discriminate. intro H; inversion H; subst; cbn; auto.
+  - destruct (Nat.ltb (length (m_inbox m)) k); [discriminate|].
+    destruct (m_overrun _); [discriminate|]. destruct (m_due _).
+    + destruct (close_class pr q c r); [|discriminate]. intro H; inversion H; subst; cbn; auto.
+    + apply normal_terminal.
+Qed.
+
+Lemma quiet_after pr ka q : forall acts os m m',
+  mon_run pr ka q m acts os = Some m' -> m_closed m = true \/ m_fin m = true -> forallb quiet os = true.
+Proof.
+  induction acts as [|a acts IH]; intros os m m' H Hc; destruct os as [|o os]; cbn in H; try discriminate; [reflexivity|].
+  destruct (mon_step pr ka q m a o) as [m1|] eqn:E; [|discriminate].
+  cbn [forallb]. unfold mon_step in E. destruct a as [ev|c], o as [|k r|]; try discriminate.
+  - inversion E; subst. cbn. apply (IH _ _ _ H). destruct (mon_env_flags ka m ev) as [F1 F2]. rewrite F1, F2. tauto.
+  - destruct (m_fin m) eqn:Ef; [discriminate|]. destruct Hc as [Hc|Hc]; [|discriminate].
+    unfold mon_poll in E. rewrite Hc in E. destruct k; [|discriminate]. destruct r; try discriminate.
+    inversion E; subst. cbn. apply (IH _ _ _ H). cbn. auto.
+  - destruct (m_fin m) eqn:Ef; [|discriminate]. inversion E; subst. cbn. apply (IH _ _ _ H). right; exact Ef.
+Qed.
+
+(* nothing is sent (and nothing is read) after a close frame, a
+   connection_error or the end of the outgoing stream *)
+Theorem silent_after_close pr ka acts pre k r post :
+  run pr ka sys0 acts = pre ++ ObsPoll k r :: post -> terminal r = true -> forallb quiet post = true.
+Proof.
+  intros E T. destruct (conforms_gen pr ka acts mon0 sys0 inv0) as (m' & H). rewrite E in H.
+  destruct (mon_run_app _ _ _ _ _ _ _ _ H) as (a1 & a2 & m1 & _ & _ & H2).
+  destruct a2 as [|a a2]; cbn in H2; [discriminate|].
+  destruct (mon_step pr ka Q m1 a (ObsPoll k r)) as [m2|] eqn:Es; [|discriminate].
+  apply (quiet_after _ _ _ _ _ _ _ H2).
+  unfold mon_step in Es. destruct a; [discriminate|]. destruct (m_fin m1); [discriminate|].
+  eapply poll_terminal; eauto.
+Qed.
+
+(* ---- a single acknowledgement ---- *)
+Lemma close_class_ack pr q c : close_class pr q c (RMsg OAck) = None.
+Proof. destruct pr, c; reflexivity. Qed.
+
+Lemma mon_env_acked ka m ev : m_acked (mon_env ka m ev) = m_acked m.
+Proof.
+  destruct ev; cbn; try reflexivity.
+  destruct (push_client (m_inbox m) (m_chans m) (m_next m) m0) as [[a b] c]. reflexivity.
+Qed.
+
+Lemma normal_acked pr m r m' :
+  normal pr m r = Some m' -> m_acked m = true -> m_acked m' = true /\ r <> RMsg OAck.
+Proof.
+  unfold normal. intros H A. rewrite A in H. cbn in H. rewrite ?Bool.andb_false_r in H. cbn in H.
+  destruct r as [| |o]; [| |destruct o]; revert H; split_match; intro H; inversion H; subst; cbn;
+    split; auto; discriminate.
+Qed.
+
+Lemma step_acked pr ka q m a o m' :
+  mon_step pr ka q m a o = Some m' -> m_acked m = true -> m_acked m' = true /\ is_ack o = false.
+Proof.
+  unfold mon_step. destruct a as [ev|c], o as [|k r|]; try discriminate; intros H A.
+  - inversion H; subst. rewrite mon_env_acked. auto.
+  - destruct (m_fin m); [discriminate|]. unfold mon_poll in H. destruct (m_closed m).
+    + destruct k; [|discriminate]. destruct r; try discriminate. inversion H; subst; cbn; auto.
+    + destruct (Nat.ltb (length (m_inbox m)) k); [discriminate|].
+      pose proof (fold_recv_frame pr q (firstn k (m_inbox m)) (set_inbox m (skipn k (m_inbox m)))) as F.
+      destruct F as (_ & _ & _ & _ & _ & _ & _ & _ & _ & F). cbn in F. rewrite A in F.
+      destruct (m_overrun _); [discriminate|]. destruct (m_due _).
+      * destruct (close_class pr q c0 r) eqn:Ec; [|discriminate]. inversion H; subst; cbn. split; [exact F|].
+        destruct r as [| |o]; try reflexivity. destruct o; try reflexivity. rewrite close_class_ack in Ec. discriminate.
+      * destruct (normal_acked _ _ _ _ H F) as [N1 N2]. split; [exact N1|].
+        destruct r as [| |o]; try reflexivity. destruct o; try reflexivity. congruence.
+  - destruct (m_fin m); [|discriminate]. inversion H; subst. auto.
+Qed.
+
+Lemma normal_ack_sets pr m m' : normal pr m (RMsg OAck) = Some m' -> m_acked m' = true.
+Proof. unfold normal. split_match; intro H; inversion H; subst; reflexivity. Qed.
+
+Lemma step_ack_sets pr ka q m a o m' :
+  mon_step pr ka q m a o = Some m' -> is_ack o = true -> m_acked m' = true.
+Proof.
+  unfold mon_step. destruct a as [ev|c], o as [|k r|]; try discriminate.
+  destruct r as [| |o]; try discriminate. destruct o; try discriminate. intros H _.
+  destruct (m_fin m); [discriminate|]. unfold mon_poll in H. destruct (m_closed m).
+  - destruct k; discriminate.
+  - destruct (Nat.ltb (length (m_inbox m)) k); [discriminate|].
+    destruct (m_overrun _); [discriminate|]. destruct (m_due _).
+    + rewrite close_class_ack in H. discriminate.
+    + eapply normal_ack_sets; eauto.
+Qed.
+
+Lemma no_ack_after pr ka q : forall acts os m m',
+  mon_run pr ka q m acts os = Some m' -> m_acked m = true -> existsb is_ack os = false.
+Proof.
+  induction acts as [|a acts IH]; intros os m m' H A; destruct os as [|o os]; cbn in H; try discriminate; [reflexivity|].
+  destruct (mon_step pr ka q m a o) as [m1|] eqn:E; [|discriminate].
+  destruct (step_acked _ _ _ _ _ _ _ E A) as [A1 A2]. cbn. rewrite A2. cbn. eapply IH; eauto.
+Qed.
+
+Lemma single_ack_post pr ka acts pre o post :
+  run pr ka sys0 acts = pre ++ o :: post -> is_ack o = true -> existsb is_ack post = false.
+Proof.
+  intros E T. destruct (conforms_gen pr ka acts mon0 sys0 inv0) as (m' & H). rewrite E in H.
+  destruct (mon_run_app _ _ _ _ _ _ _ _ H) as (a1 & a2 & m1 & _ & _ & H2).
+  destruct a2 as [|a a2]; cbn in H2; [discriminate|].
+  destruct (mon_step pr ka Q m1 a o) as [m2|] eqn:Es; [|discriminate].
+  eapply no_ack_after; [exact H2|]. eapply step_ack_sets; eauto.
+Qed.
+
+(* connection_ack is sent at most once in a session *)
+Theorem single_ack pr ka acts pre o post :
+  run pr ka sys0 acts = pre ++ o :: post -> is_ack o = true ->
+  existsb is_ack pre = false /\ existsb is_ack post = false.
+Proof.
+  intros E T. split; [|eapply single_ack_post; eauto].
+  destruct (existsb is_ack pre) eqn:Ex; [|reflexivity]. exfalso.
+  apply existsb_exists in Ex. destruct Ex as (o' & Hin & T').
+  apply in_split in Hin. destruct Hin as (p1 & p2 & ->).
+  rewrite <- app_assoc in E. cbn in E.
+  pose proof (single_ack_post _ _ _ _ _ _ E T') as F.
+  rewrite existsb_app in F. cbn in F. rewrite T in F. rewrite Bool.orb_true_r in F. discriminate.
+Qed.
+
+(* ---- no operation before the acknowledgement ---- *)
+Definition Z (m : mon) : Prop := m_acked m = false /\ m_live m = [] /\ m_stopped m = [].
+
+Lemma recv_Z pr q m c : Z m -> Z (recv pr q m c).
+Proof.
+  intros (A & L & S). unfold recv, Z. destruct (m_due m); [cbn; auto|].
+  destruct c; cbn; rewrite ?A, ?L; cbn; auto. destruct (m_inits m); cbn; auto.
+Qed.
+
+Lemma fold_Z pr q cs : forall m, Z m -> Z (fold_left (recv pr q) cs m).
+Proof. induction cs; intros m H; cbn [fold_left]; auto using recv_Z. Qed.
+
+Lemma close_class_op pr q c k r : is_op (ObsPoll k r) = true -> close_class pr q c r = None.
+Proof. destruct r as [| |o]; try discriminate. destruct o; try discriminate; intros _; destruct pr, c; reflexivity. Qed.
+
+Lemma normal_Z pr m r m' k :
+  normal pr m r = Some m' -> Z m -> is_op (ObsPoll k r) = false /\ (Z m' \/ r = RMsg OAck).
+Proof.
+  unfold normal. intros H (A & L & S). rewrite L, S in H. cbn in H.
+  destruct r as [| |o]; [| |destruct o]; revert H; split_match; intro H; inversion H; subst; cbn;
+    unfold Z; cbn; auto.
+Qed.
+
+Lemma step_Z pr ka q m a o m' :
+  mon_step pr ka q m a o = Some m' -> Z m -> is_op o = false /\ (Z m' \/ is_ack o = true).
+Proof.
+  unfold mon_step. destruct a as [ev|c], o as [|k r|]; try discriminate; intros H HZ.
+  - inversion H; subst. split; [reflexivity|]. left. destruct HZ as (A & L & S). unfold Z.
+    destruct ev; cbn; auto. destruct (push_client (m_inbox m) (m_chans m) (m_next m) m0) as [[a b] c]. cbn. auto.
+  - destruct (m_fin m); [discriminate|]. unfold mon_poll in H. destruct (m_closed m).
+    + destruct k; [|discriminate]. destruct r; try discriminate. inversion H; subst; cbn.
+      split; [reflexivity|]. left. exact HZ.
+    + destruct (Nat.ltb (length (m_inbox m)) k); [discriminate|].
+      assert (Z1 : Z (fold_left (recv pr q) (firstn k (m_inbox m)) (set_inbox m (skipn k (m_inbox m)))))
+        by (apply fold_Z; exact HZ).
+      destruct (m_overrun _); [discriminate|]. destruct (m_due _).
+      * destruct (close_class pr q c0 r) eqn:Ec; [|discriminate]. inversion H; subst; cbn. split.
+        -- destruct (is_op (ObsPoll k r)) eqn:Eo; [|exact Eo]. rewrite (close_class_op _ _ _ _ _ Eo) in Ec. discriminate.
+        -- left. exact Z1.
+      * destruct (normal_Z _ _ _ _ k H Z1) as [N1 [N2|N2]]; split; auto. subst r. right. reflexivity.
+  - destruct (m_fin m); [|discriminate]. inversion H; subst. auto.
+Qed.
+
+Lemma ops_after_ack_gen pr ka q : forall acts os m m',
+  mon_run pr ka q m acts os = Some m' -> Z m ->
+  forall pre o post, os = pre ++ o :: post -> is_op o = true -> existsb is_ack pre = true.
+Proof.
+  induction acts as [|a acts IH]; intros os m m' H HZ pre o post E T; destruct os as [|o1 os]; cbn in H; try discriminate.
+  - destruct pre; discriminate.
+  - destruct (mon_step pr ka q m a o1) as [m1|] eqn:Es; [|discriminate].
+    destruct (step_Z _ _ _ _ _ _ _ Es HZ) as [S1 S2].
+    destruct pre as [|p pre]; cbn in E; inversion E; subst.
+    + congruence.
+    + cbn. destruct S2 as [S2|S2]; [|rewrite S2; reflexivity].
+      rewrite (IH _ _ _ H S2 _ _ _ eq_refl T). apply Bool.orb_true_r.
+Qed.
+
+(* data, next and complete are only sent after connection_ack *)
+Theorem ops_only_after_ack pr ka acts pre o post :
+  run pr ka sys0 acts = pre ++ o :: post -> is_op o = true -> existsb is_ack pre = true.
+Proof.
+  intros E T. destruct (conforms_gen pr ka acts mon0 sys0 inv0) as (m' & H).
+  eapply ops_after_ack_gen; eauto. unfold Z, mon0; cbn; auto.
+Qed.
+
+(* ---- data only for live operations; complete ends the operation ---- *)
+Definition is_data (o : out) (id : name) (i n : N) : Prop := o = OData id i n \/ o = ONext id i n.
+
+Lemma assoc_remove_key {A} id (l : list (name * A)) : assoc id (remove_key id l) = None.
+Proof.
+  induction l as [|[k v] l IH]; cbn; [reflexivity|].
+  destruct (name_eqb id k) eqn:E; cbn; [exact IH|]. rewrite E. exact IH.
+Qed.
+
+Lemma drain_early_shape pr : forall inb s tf k s' tf' inb' k' o,
+  drain pr s tf inb k = (s', tf', inb', k', Some (RMsg o)) ->
+  match o with
+  | OData _ _ _ | ONext _ _ _ | OAck | OPong => False
+  | OComplete id => assoc id (streams s') = None
+  | _ => closed s' = true
+  end.
+Proof.
+  induction inb as [|c inb IH]; intros s tf k s' tf' inb' k' o H; cbn [drain] in H; [discriminate|].
+  destruct c.
+  - destruct (on_init s); [discriminate|]. inversion H; subst. destruct pr; reflexivity.
+  - destruct (acked s); [eapply IH; eauto|]. inversion H; subst. reflexivity.
+  - destruct (assoc id (streams s)); [|eapply IH; eauto]. inversion H; subst. cbn. apply assoc_remove_key.
+  - discriminate.
+  - discriminate.
+  - eapply IH; eauto.
+  - inversion H; subst. reflexivity.
+  - discriminate.
+Qed.
+
+Lemma streams_data pr s e k c s' e' k' o :
+  poll_streams pr s e k c = (s', e', k', RMsg o) ->
+  match o with
+  | OData id i n | ONext id i n =>
+      assoc id (streams s') = Some i /\ (exists b en, assoc i (chans e) = Some (n :: b, en)) /\
+      o = data_msg pr id i n
+  | OComplete id => assoc id (streams s') = None
+  | _ => False
+  end.
+Proof.
+  unfold poll_streams. destruct (pick (chans e) (streams s) c) as [id|]; [|discriminate].
+  destruct (assoc id (streams s)) as [i|] eqn:Ei; [|discriminate].
+  destruct (assoc i (chans e)) as [[[|n b] en]|] eqn:Ec; [destruct en| |]; try discriminate; intro H; inversion H; subst.
+  - cbn. apply assoc_remove_key.
+  - unfold data_msg. destruct pr; (split; [exact Ei|]; split; [eauto|reflexivity]).
+Qed.
+
+Lemma futs_data pr s e k c s' e' k' o :
+  poll_futs pr s e k c = (s', e', k', RMsg o) ->
+  match o with
+  | OData id i n | ONext id i n =>
+      assoc id (streams s') = Some i /\ (exists b en, assoc i (chans e) = Some (n :: b, en)) /\
+      o = data_msg pr id i n
+  | OComplete id => assoc id (streams s') = None
+  | _ => True
+  end.
+Proof.
+  unfold poll_futs, fail_msg. destruct (init_fut s).
+  - destruct (init_q e) as [|[|] qq]; intro H; inversion H; subst; destruct pr; exact I.
+  - destruct (ping_fut s).
+    + destruct (ping_q e) as [|[|] qq]; intro H; inversion H; subst; destruct pr; exact I.
+    + intro H. pose proof (streams_data _ _ _ _ _ _ _ _ _ H) as D. destruct o; auto.
+Qed.
+
+(* every data / next message carries the oldest undelivered item of the
+   source stream of an operation that is running under that id, in the
+   message type of the negotiated protocol; after complete the id is free *)
+Theorem data_only_for_live pr ka s e c s' e' k o :
+  poll pr ka s e c = (s', e', k, RMsg o) ->
+  match o with
+  | OData id i n | ONext id i n =>
+      assoc id (streams s') = Some i /\ (exists b en, assoc i (chans e) = Some (n :: b, en)) /\
+      o = data_msg pr id i n
+  | OComplete id => assoc id (streams s') = None
+  | _ => True
+  end.
+Proof.
+  unfold poll. destruct (closed s); [discriminate|].
+  destruct (ka && timer_fired e); [intro H; inversion H; subst; destruct pr; exact I|].
+  destruct (negb (init_fut s) && negb (ping_fut s)); [|apply futs_data].
+  destruct (drain pr s (timer_fired e) (inbox e) 0) as [[[[s1 tf] inb] k1] [r|]] eqn:Ed.
+  - intro H; inversion H; subst. pose proof (drain_early_shape _ _ _ _ _ _ _ _ _ _ Ed) as D.
+    destruct o; auto; contradiction.
+  - intro H. apply futs_data in H. cbn in H. exact H.
+Qed.
+
+(* a second connection_init closes the connection: 4429 / connection_error *)
+Lemma second_init_closes pr ka s e c inb :
+  closed s = false -> (ka && timer_fired e) = false -> init_fut s = false -> ping_fut s = false ->
+  on_init s = false -> inbox e = CInit :: inb ->
+  exists s' e', poll pr ka s e c =
+                (s', e', 1%nat, RMsg match pr with Legacy => OConnErr 2 | Modern => OClose 4429 end) /\
+                closed s' = true.
+Proof.
+  intros H H0 H1 H2 H3 H4. unfold poll. rewrite H, H0, H1, H2, H4. cbn. rewrite H3. cbn. eauto.
+Qed.
+
+(* ---- the subscriptions-transport-ws protocol is followed in every session ---- *)
+Lemma recv_legacy_quirk q m c : m_quirk (recv Legacy q m c) = m_quirk m.
+Proof. unfold recv. split_match; reflexivity. Qed.
+
+Lemma fold_legacy_quirk q cs : forall m, m_quirk (fold_left (recv Legacy q) cs m) = m_quirk m.
+Proof. induction cs as [|c cs IH]; intro m; cbn [fold_left]; [reflexivity|]. rewrite IH. apply recv_legacy_quirk. Qed.
+
+Lemma close_class_legacy q c r d : close_class Legacy q c r = Some d -> d = 0.
+Proof. unfold close_class. destruct c, r as [| |o]; try destruct o; cbn; congruence. Qed.
+
+Lemma mon_run_legacy_quirk ka q : forall acts os m m',
+  mon_run Legacy ka q m acts os = Some m' -> m_quirk m' = m_quirk m.
+Proof.
+  induction acts as [|a acts IH]; intros os m m' H; destruct os as [|o os]; cbn in H; try discriminate.
+  - inversion H; reflexivity.
+  - destruct (mon_step Legacy ka q m a o) as [m1|] eqn:E; [|discriminate].
+    rewrite (IH _ _ _ H). clear H IH. unfold mon_step in E.
+    destruct a as [ev|c], o as [|k r|]; try discriminate.
+    + inversion E; subst. apply mon_env_quirk.
+    + destruct (m_fin m); [discriminate|]. unfold mon_poll in E. destruct (m_closed m).
+      * destruct k; [|discriminate]. destruct r; try discriminate. inversion E; reflexivity.
+      * destruct (Nat.ltb (length (m_inbox m)) k); [discriminate|].
+        pose proof (fold_legacy_quirk q (firstn k (m_inbox m)) (set_inbox m (skipn k (m_inbox m)))) as F.
+        cbn in F. destruct (m_overrun _); [discriminate|]. destruct (m_due _).
+        -- destruct (close_class Legacy q c0 r) eqn:Ec; [|discriminate]. inversion E; subst; cbn.
+           rewrite (close_class_legacy _ _ _ _ Ec). cbn. exact F.
+        -- rewrite (normal_quirk _ _ _ _ E). exact F.
+    + destruct (m_fin m); [|discriminate]. inversion E; reflexivity.
+Qed.
+
+Theorem legacy_strict ka acts : accepts Legacy ka quirks_none acts (run Legacy ka sys0 acts) = true.
+Proof.
+  apply strict_outside_known. unfold known_class.
+  destruct (mon_run Legacy ka Q mon0 acts (run Legacy ka sys0 acts)) as [m|] eqn:E; [|reflexivity].
+  rewrite (mon_run_legacy_quirk _ _ _ _ _ _ E). reflexivity.
+Qed.
+
+(* ---- the known deviations, on the faithful model ---- *)
+Definition w_dup : list action :=
+  [AEnv (EClient CInit); APoll None; AEnv (EInitDone true); APoll None;
+   AEnv (EClient (CStart 0 0)); APoll None; AEnv (EItem 0 7); APoll None;
+   AEnv (EClient (CStart 0 0)); APoll None; AEnv (EItem 0 8); AEnv (EItem 1 9); APoll None; APoll None].
+Definition w_unauth : list action := [AEnv (EClient (CStart 0 0)); APoll None; APoll None].
+Definition w_bad : list action := [AEnv (EClient CBad); APoll None; APoll None].
+
+Lemma dup_id_refuted :
+  run Modern false sys0 w_dup =
+    [ObsEnv; ObsPoll 1 RPending; ObsEnv; ObsPoll 0 (RMsg OAck); ObsEnv; ObsPoll 1 RPending;
+     ObsEnv; ObsPoll 0 (RMsg (ONext 0 0 7)); ObsEnv; ObsPoll 1 RPending; ObsEnv; ObsEnv;
+     ObsPoll 0 (RMsg (ONext 0 1 9)); ObsPoll 0 RPending] /\
+  accepts Modern false quirks_none w_dup (run Modern false sys0 w_dup) = false /\
+  known_class Modern false w_dup (run Modern false sys0 w_dup) = 1.
+Proof. vm_compute. auto. Qed.
+
+Lemma unauth_refuted :
+  run Modern false sys0 w_unauth = [ObsEnv; ObsPoll 1 (RMsg (OClose 1011)); ObsPoll 0 REnd] /\
+  accepts Modern false quirks_none w_unauth (run Modern false sys0 w_unauth) = false /\
+  known_class Modern false w_unauth (run Modern false sys0 w_unauth) = 2.
+Proof. vm_compute. auto. Qed.
+
+Lemma bad_frame_refuted :
+  run Modern false sys0 w_bad = [ObsEnv; ObsPoll 1 (RMsg (OClose 1002)); ObsPoll 0 REnd] /\
+  accepts Modern false quirks_none w_bad (run Modern false sys0 w_bad) = false /\
+  known_class Modern false w_bad (run Modern false sys0 w_bad) = 3.
+Proof. vm_compute. auto. Qed.
+
+(* non-vacuity: a complete life cycle, accepted by the strict monitor *)
+Definition w_life : list action :=
+  [AEnv (EClient CInit); APoll None; AEnv (EInitDone true); APoll None;
+   AEnv (EClient (CStart 0 0)); AEnv (EClient (CStart 1 0)); APoll None;
+   AEnv (EItem 0 5); AEnv (EItem 1 6); APoll (Some 1); APoll None;
+   AEnv (EEnd 0); APoll None; AEnv (EClient (CStop 1)); APoll None;
+   AEnv (EClient CPing); AEnv (EPingDone true); APoll None; AEnv (EClient CEof); APoll None; APoll None].
+
+Lemma nonvacuous :
+  run Modern true sys0 w_life =
+    [ObsEnv; ObsPoll 1 RPending; ObsEnv; ObsPoll 0 (RMsg OAck); ObsEnv; ObsEnv; ObsPoll 2 RPending;
+     ObsEnv; ObsEnv; ObsPoll 0 (RMsg (ONext 1 1 6)); ObsPoll 0 (RMsg (ONext 0 0 5));
+     ObsEnv; ObsPoll 0 (RMsg (OComplete 0)); ObsEnv; ObsPoll 1 (RMsg (OComplete 1));
+     ObsEnv; ObsEnv; ObsPoll 1 (RMsg OPong); ObsEnv; ObsPoll 0 REnd; ObsSkip] /\
+  known_class Modern true w_life (run Modern true sys0 w_life) = 0 /\
+  accepts Modern true quirks_none w_life (run Modern true sys0 w_life) = true.
+Proof. vm_compute. auto. Qed.
